@@ -351,6 +351,17 @@ def check_setters_consumed(ctx, rule):
                         if o[0] in ("m", "c") and o[1]["l"] == l and not o[1]["p"]: uses.add(b)
             # copies of the parameter into temporaries count as uses only if the temporary is used: follow one level
             esc = [r for r in body.returns if r in ({0} | body.reach_from(0, avoid=frozenset(uses)))] if 0 not in uses else []
+            if esc:
+                # a path that answers `None` because the allocation / reservation failed has nothing to fill: the setter may simply go out of scope there
+                # (`let (slot, id) = self.alloc_ref()?; setter(slot); ..`).  Only answers other than None on a setter-less path are reported.
+                region = {0} | body.reach_from(0, avoid=frozenset(uses))
+                only_none = True
+                for b_ in region:
+                    for st_ in body.stmts(b_):
+                        if st_[0] == "A" and not st_[1]["p"] and st_[1]["l"] == 0 and not (st_[2][0] == "Agg" and st_[2][1][0] == "Adt" and st_[2][1][2] == "None"): only_none = False
+                    t_ = body.term(b_)
+                    if t_[0] == "Call" and t_[1].get("dst") and not t_[1]["dst"]["p"] and t_[1]["dst"]["l"] == 0 and not (t_[1].get("f") or "").endswith("FromResidual::from_residual"): only_none = False
+                if only_none and body.locals[0]["ty"].startswith("std::option::Option"): esc = []
             ctx.ob(rule, f"{f['key']}|{nm}-consumed-on-every-path", not esc, body.loc(esc[0]) if esc else f"{f['file']}:{f['line']}",
                    "the setter is invoked, forwarded or handed back on every path" if not esc else
                    "a path returns without invoking, forwarding or handing back the setter: the slot it should have filled is published / returned uninitialised")
